@@ -218,6 +218,22 @@ def reused_criteria_stream(ctx, n):
                 fails.append('second compute with the same list object gives %s, a fresh list gives %s' % (h2, hr))
         except Exception as e:
             fails = ['raised %r' % (e,)]
+        # the criteria as a tuple, and as one-shot iterables (a generator expression, map): if they are accepted at all,
+        # they mean what the list means
+        if not fails:
+            try:
+                forms = [('tuple', tuple(fs)), ('generator', (f_ for f_ in fs)), ('map', map(lambda f_: f_, fs))]
+                for name, obj in forms:
+                    try:
+                        d3 = Dendrogram.compute(arr.copy(), is_independent=obj, **kw)
+                    except TypeError:
+                        continue                       # refusing such an argument is no violation
+                    h3 = impl.impl_hierarchy(d3, shape)
+                    if h3 != hr:
+                        fails.append('criteria given as a %s give %s, as a list %s' % (name, h3, hr))
+                        break
+            except Exception as e:
+                fails.append('raised %r' % (e,))
         ctx.count('reused_criteria_lists')
         ctx.case_done(None, ('reused-criteria', it))
         if fails:
